@@ -219,23 +219,35 @@ theorem addValue_shape (m m' : SMap) (s : Setting) (name : String) (sc : Scope) 
     split at h <;> try simp at h
     exact ⟨_, h.symm⟩
 
+theorem remStore_shape (m : SMap) (name : String) (sc : Scope) (l l' : List Obj) :
+    (∃ v, remStore m name sc l l' = setValue m name v sc) ∨ remStore m name sc l l' = m := by
+  unfold remStore
+  split
+  · right; rfl
+  · left; exact ⟨_, rfl⟩
+
 theorem remValue_shape (m m' : SMap) (s : Setting) (name : String) (sc : Scope) (value : Val)
-    (h : remValue m s name sc value = .ok m') : ∃ v, m' = setValue m name v sc := by
+    (h : remValue m s name sc value = .ok m') : (∃ v, m' = setValue m name v sc) ∨ m' = m := by
   unfold remValue at h
   split at h
   · simp at h
   · split at h <;> try simp at h
-    all_goals exact ⟨_, h.symm⟩
+    all_goals
+      subst h
+      exact remStore_shape _ _ _ _ _
 
 theorem applyCoerced_shape (m m' : SMap) (s : Setting) (op : Op) (value : Val)
     (h : applyCoerced m s op value = .ok m') :
-    (∃ v, m' = setValue m op.name v op.scope) ∨ (op.code = .reset ∧ m' = m.delete op.name) := by
+    (∃ v, m' = setValue m op.name v op.scope) ∨ (op.code = .reset ∧ m' = m.delete op.name) ∨
+    (op.code = .rem ∧ m' = m) := by
   unfold applyCoerced at h
   split at h
   · left; exact ⟨_, by simpa using h.symm⟩
-  · right; exact ⟨by assumption, by simpa using h.symm⟩
+  · right; left; exact ⟨by assumption, by simpa using h.symm⟩
   · left; exact addValue_shape _ _ _ _ _ _ h
-  · left; exact remValue_shape _ _ _ _ _ _ h
+  · rcases remValue_shape _ _ _ _ _ _ h with h | h
+    · left; exact h
+    · right; right; exact ⟨by assumption, h⟩
 
 /-- a successful `apply` found the setting, coerced the value, and ran one arm -/
 theorem apply_ok_inv (sp : Spec) (m m' : SMap) (op : Op) (h : apply sp m op = .ok m') :
@@ -251,32 +263,37 @@ theorem apply_ok_inv (sp : Spec) (m m' : SMap) (op : Op) (h : apply sp m op = .o
     · rename_i value hv
       exact ⟨s, value, hs, hv, h⟩
 
-/-- every successful `apply` is one of: a `set` of the op's key, or its deletion -/
+/-- every successful `apply` is one of: a `set` of the op's key, its deletion,
+    or (a filtered RESET with nothing to do) the storage itself -/
 theorem apply_shape (sp : Spec) (m m' : SMap) (op : Op) (h : apply sp m op = .ok m') :
-    (∃ v, m' = setValue m op.name v op.scope) ∨ (op.code = .reset ∧ m' = m.delete op.name) := by
+    (∃ v, m' = setValue m op.name v op.scope) ∨ (op.code = .reset ∧ m' = m.delete op.name) ∨
+    (op.code = .rem ∧ m' = m) := by
   obtain ⟨s, value, _, _, h3⟩ := apply_ok_inv sp m m' op h
   exact applyCoerced_shape m m' s op value h3
 
 /-- frame: no other key is touched -/
 theorem apply_frame (sp : Spec) (m m' : SMap) (op : Op) (h : apply sp m op = .ok m')
     (k : String) (hk : k ≠ op.name) : m'.get k = m.get k := by
-  rcases apply_shape sp m m' op h with ⟨v, rfl⟩ | ⟨_, rfl⟩
+  rcases apply_shape sp m m' op h with ⟨v, rfl⟩ | ⟨_, rfl⟩ | ⟨_, rfl⟩
   · exact SMap.get_set_other m op.name k _ hk
   · exact SMap.get_delete_other m op.name k hk
+  · rfl
 
 theorem apply_WF (sp : Spec) (m m' : SMap) (op : Op) (h : apply sp m op = .ok m') (hwf : m.WF) :
     m'.WF := by
-  rcases apply_shape sp m m' op h with ⟨v, rfl⟩ | ⟨_, rfl⟩
+  rcases apply_shape sp m m' op h with ⟨v, rfl⟩ | ⟨_, rfl⟩ | ⟨_, rfl⟩
   · exact SMap.WF_set m _ _ hwf
   · exact SMap.WF_delete m _ hwf
+  · exact hwf
 
 /-- the stored entry carries the op's name and scope and the scope's source -/
 theorem apply_entry (sp : Spec) (m m' : SMap) (op : Op) (h : apply sp m op = .ok m')
-    (hc : op.code ≠ .reset) :
+    (hc : op.code = .set ∨ op.code = .add) :
     ∃ v, m'.get op.name = some { name := op.name, value := v, source := op.scope.source, scope := op.scope } := by
-  rcases apply_shape sp m m' op h with ⟨v, rfl⟩ | ⟨hr, _⟩
+  rcases apply_shape sp m m' op h with ⟨v, rfl⟩ | ⟨hr, _⟩ | ⟨hr, _⟩
   · exact ⟨v, SMap.get_set_same m op.name _⟩
-  · exact absurd hr hc
+  · rcases hc with hc | hc <;> rw [hc] at hr <;> cases hr
+  · rcases hc with hc | hc <;> rw [hc] at hr <;> cases hr
 
 /-- unknown setting: ConfigurationError -/
 theorem apply_unknown (sp : Spec) (m : SMap) (op : Op) (h : sp.get op.name = none) :
@@ -456,14 +473,15 @@ theorem apply_add_inv (sp : Spec) (m m' : SMap) (sc : Scope) (name : String) (v 
       refine ⟨s, t, o, l, hs, hty, ?_, hex, by simpa using h3.symm, e2, hchk⟩
       split at hv <;> simp_all
 
-/-- REM removes the elements equal (`__eq__`) to the given object; REM of
-    `None` rewrites the same set -/
+/-- REM removes the elements equal (`__eq__`) to the given object (REM of `None`
+    removes nothing); the result is stored, except that nothing at all is stored
+    when the scope has no entry and nothing was removed (`remStore`) -/
 theorem apply_rem_inv (sp : Spec) (m m' : SMap) (sc : Scope) (name : String) (v : JV)
     (h : apply sp m ⟨.rem, sc, name, v⟩ = .ok m') :
     ∃ s t l, sp.get name = some s ∧ s.ty = .obj t ∧ existValue m name s = .objs l ∧
       ((∃ o, fromPyValue sp t true v = .ok (some o) ∧
-          m' = setValue m name (.objs (l.filter fun x => !x.pyEq o)) sc) ∨
-       (fromPyValue sp t true v = .ok none ∧ m' = setValue m name (.objs l) sc)) := by
+          m' = remStore m name sc l (l.filter fun x => !x.pyEq o)) ∨
+       (fromPyValue sp t true v = .ok none ∧ m' = remStore m name sc l l)) := by
   obtain ⟨s, value, hs, hv, h3⟩ := apply_ok_inv sp m m' _ h
   simp only [applyCoerced] at h3
   unfold remValue at h3
@@ -479,5 +497,75 @@ theorem apply_rem_inv (sp : Spec) (m m' : SMap) (sc : Scope) (name : String) (v 
     · rename_i l hex
       refine ⟨s, t, l, hs, hty, hex, Or.inr ⟨?_, by simpa using h3.symm⟩⟩
       split at hv <;> simp_all
+
+/-! ### a filtered RESET that removes nothing -/
+
+/-- `remStore` with an unchanged list leaves every entry's VALUE as it was -/
+theorem remStore_same_values (m : SMap) (name : String) (sc : Scope) (l : List Obj)
+    (hl : ∀ sv, m.get name = some sv → sv.value = .objs l) (k : String) :
+    ((remStore m name sc l l).get k).map (·.value) = (m.get k).map (·.value) := by
+  unfold remStore
+  cases hg : m.get name with
+  | none => simp
+  | some sv =>
+    simp only [hg, Option.isNone_some, Bool.false_and, Bool.false_eq_true, if_false]
+    by_cases hk : k = name
+    · subst hk
+      unfold setValue
+      rw [SMap.get_set_same, hg]
+      simp [hl sv hg]
+    · rw [show (setValue m name (.objs l) sc).get k = m.get k from SMap.get_set_other m name k _ hk]
+
+/-- lookups only look at values -/
+theorem lookup_of_value_eq (sp : Spec) (name : String) (au : Bool) (cs cs' : List SMap)
+    (h : (cs.findSome? (·.get name)).map (·.value) = (cs'.findSome? (·.get name)).map (·.value)) :
+    lookup sp name cs au = lookup sp name cs' au := by
+  unfold lookup
+  cases sp.get name with
+  | none => rfl
+  | some s =>
+    simp only
+    cases h1 : cs.findSome? (·.get name) <;> cases h2 : cs'.findSome? (·.get name) <;>
+      simp [h1, h2] at h ⊢
+    exact h
+
+theorem findSome_value_congr (name : String) (m m' : SMap) (post : List SMap)
+    (hv : (m'.get name).map (·.value) = (m.get name).map (·.value)) : ∀ (pre : List SMap),
+    ((pre ++ m' :: post).findSome? (·.get name)).map (·.value) =
+      ((pre ++ m :: post).findSome? (·.get name)).map (·.value) := by
+  intro pre
+  induction pre with
+  | nil =>
+    simp only [List.nil_append, List.findSome?]
+    cases h1 : m'.get name <;> cases h2 : m.get name <;> simp [h1, h2] at hv ⊢
+    exact hv
+  | cons c r ih =>
+    simp only [List.cons_append, List.findSome?]
+    cases c.get name with
+    | some sv => rfl
+    | none => exact ih
+
+/-- **A filtered RESET (REM) that removes nothing leaves every effective value
+    unchanged**, whatever the other layers are and wherever this layer sits:
+    `lookup` of every setting over `pre ++ m' :: post` equals the one over
+    `pre ++ m :: post`. -/
+theorem rem_noop_lookup (sp : Spec) (m m' : SMap) (sc : Scope) (name : String) (v : JV)
+    (h : apply sp m ⟨.rem, sc, name, v⟩ = .ok m')
+    (hnoop : ∀ s t l o, sp.get name = some s → s.ty = .obj t → existValue m name s = .objs l →
+      fromPyValue sp t true v = .ok (some o) → (l.filter fun x => !x.pyEq o) = l)
+    (k : String) (pre post : List SMap) (au : Bool) :
+    lookup sp k (pre ++ m' :: post) au = lookup sp k (pre ++ m :: post) au := by
+  obtain ⟨s, t, l, hs, hty, hex, hcase⟩ := apply_rem_inv sp m m' sc name v h
+  have hm' : m' = remStore m name sc l l := by
+    rcases hcase with ⟨o, ho, hm'⟩ | ⟨_, hm'⟩
+    · rw [hnoop s t l o hs hty hex ho] at hm'; exact hm'
+    · exact hm'
+  have hl : ∀ sv, m.get name = some sv → sv.value = .objs l := by
+    intro sv hsv
+    unfold existValue at hex
+    simpa [hsv] using hex
+  have hvals : ∀ k, (m'.get k).map (·.value) = (m.get k).map (·.value) := by
+    intro k; rw [hm']; exact remStore_same_values m name sc l hl k
+  exact lookup_of_value_eq sp k au _ _ (findSome_value_congr k m m' post (hvals k) pre)
 
 end EdbVerif.Config
